@@ -208,6 +208,9 @@ fn judge_faulty(n: usize, idx: u64, st: &Start, plan: &Plan, rep: &Report, disk_
             if let Some(d) = hist_diff(hout, u.history_out.as_ref().unwrap(), &cmp) {
                 viols.push(mk("C14", "histories-differ", "".into(), format!("returned histories differ: {}", d)));
             }
+            if rep.cleanup_offered != u.cleanup_offered {
+                viols.push(mk("C14", "cleanup-offers-differ", "".into(), format!("Ephemerals offered for cleanup {:?} vs {:?} under the canonical schedule", rep.cleanup_offered, u.cleanup_offered)));
+            }
             if rep.started != u.started {
                 acc.nontrivial("C14", case_hash);
             }
@@ -498,6 +501,9 @@ fn edits(n: usize, idx: u64, g0: &Graph, mode: CmpMode, stamp: &mut u64, acc: &m
                     }
                     if let Some(d) = hist_diff(rep.history_out.as_ref().unwrap(), f.history_out.as_ref().unwrap(), &cmp) {
                         viols.push(mk("C14", "histories-differ", "".into(), format!("returned histories differ between schedules: {}", d)));
+                    }
+                    if rep.cleanup_offered != f.cleanup_offered {
+                        viols.push(mk("C14", "cleanup-offers-differ", "".into(), format!("Ephemerals offered for cleanup differ between schedules: {:?} vs {:?}", rep.cleanup_offered, f.cleanup_offered)));
                     }
                     if *fdisk != disk_after {
                         viols.push(mk("C14", "outputs-differ", "".into(), format!("outputs differ between schedules: {:?} vs {:?}", disk_after, fdisk)));
